@@ -137,6 +137,8 @@ class Program:
 
     def _index(self, mi: ModuleInfo):
         if self.inline:
+            normalise_fstrings(mi.tree)
+            split_parallel_assign(mi.tree)
             inline_private_helpers(mi.tree)
             for n in ast.walk(mi.tree):
                 if isinstance(n, (ast.FunctionDef, ast.AsyncFunctionDef)):
@@ -544,6 +546,89 @@ def inline_local_procedures(fnode):
         if inlined[name] and inlined[name] == refs[name]:
             st._inlined = True
     return total
+
+
+def normalise_fstrings(tree):
+    """f"c{i}_"  ->  "c{0}_".format(i): one canonical form for string
+    templates, so that rules written for str.format also see f-strings
+    (format specs and !r / !s conversions are carried into the template;
+    f-strings that are only logged stay as they are harmlessly rewritten)."""
+    class T(ast.NodeTransformer):
+        def visit_JoinedStr(self, node):
+            self.generic_visit(node)
+            tmpl, args = [], []
+            for v in node.values:
+                if isinstance(v, ast.Constant) and isinstance(v.value, str):
+                    tmpl.append(v.value.replace("{", "{{").replace("}", "}}"))
+                elif isinstance(v, ast.FormattedValue):
+                    spec = ""
+                    fs = v.format_spec
+                    if isinstance(fs, ast.Constant):
+                        # (a constant spec was already folded by this pass)
+                        spec = ":" + str(fs.value)
+                    elif fs is not None:
+                        if not (isinstance(fs, ast.JoinedStr) and
+                                all(isinstance(x, ast.Constant)
+                                    for x in fs.values)):
+                            return node
+                        spec = ":" + "".join(x.value for x in fs.values)
+                    conv = {-1: "", 115: "!s", 114: "!r", 97: "!a"}.get(
+                        v.conversion, None)
+                    if conv is None:
+                        return node
+                    tmpl.append("{%d%s%s}" % (len(args), conv, spec))
+                    args.append(v.value)
+                else:
+                    return node
+            if not args:
+                return ast.copy_location(ast.Constant(value="".join(
+                    t.replace("{{", "{").replace("}}", "}") for t in tmpl)),
+                    node)
+            call = ast.Call(
+                func=ast.Attribute(value=ast.Constant(value="".join(tmpl)),
+                                   attr="format", ctx=ast.Load()),
+                args=args, keywords=[])
+            return ast.fix_missing_locations(ast.copy_location(call, node))
+    T().visit(tree)
+    return tree
+
+
+def split_parallel_assign(tree):
+    """a, b = x, y  ->  a = x; b = y  when no name stored on the left occurs
+    on the right (so the order of the stores cannot matter; swaps such as
+    a, b = b, a stay as they are)"""
+    class T(ast.NodeTransformer):
+        def visit_Assign(self, node):
+            if len(node.targets) != 1:
+                return node
+            t, v = node.targets[0], node.value
+            if not (isinstance(t, (ast.Tuple, ast.List)) and
+                    isinstance(v, (ast.Tuple, ast.List)) and
+                    len(t.elts) == len(v.elts) and len(t.elts) > 1):
+                return node
+            if any(isinstance(e, ast.Starred) for e in t.elts + v.elts):
+                return node
+            if not all(isinstance(e, ast.Name) for e in t.elts):
+                return node
+            lhs = {e.id for e in t.elts}
+            rhs = {x.id for e in v.elts for x in ast.walk(e)
+                   if isinstance(x, ast.Name)}
+            if lhs & rhs or len(lhs) != len(t.elts):
+                return node
+            if any(isinstance(x, (ast.Call, ast.Await, ast.Yield,
+                                  ast.NamedExpr))
+                   for e in v.elts[1:] for x in ast.walk(e)) and \
+                    any(isinstance(x, ast.Call) for x in ast.walk(v.elts[0])):
+                pass      # evaluation order is left to right either way
+            out = []
+            for te, ve in zip(t.elts, v.elts):
+                a = ast.Assign(targets=[te], value=ve)
+                ast.copy_location(a, node)
+                a.end_lineno = getattr(node, "end_lineno", None)
+                out.append(ast.fix_missing_locations(a))
+            return out
+    T().visit(tree)
+    return tree
 
 
 def inline_private_helpers(tree):
@@ -1143,6 +1228,21 @@ def unsorted_groupby(prog, fi):
             continue
         d = prog.dotted(mod, c.func) if isinstance(c.func, ast.Attribute) \
             else prog.resolve_name(mod, norm(c.func))
+        if d is None:
+            # imported inside the function
+            loc = {}
+            for st in ast.walk(fi.node):
+                if isinstance(st, ast.Import):
+                    for a in st.names:
+                        loc[a.asname or a.name.split(".")[0]] = \
+                            a.name if a.asname else a.name.split(".")[0]
+                elif isinstance(st, ast.ImportFrom) and not st.level:
+                    for a in st.names:
+                        loc[a.asname or a.name] = "%s.%s" % (st.module,
+                                                            a.name)
+            parts = norm(c.func).split(".")
+            if parts[0] in loc:
+                d = ".".join([loc[parts[0]]] + parts[1:])
         if d != "itertools.groupby" or not c.args:
             continue
         key = kwarg(c, "key") or (c.args[1] if len(c.args) > 1 else None)
@@ -1293,6 +1393,15 @@ def _alias_chain(e, stable_attr):
     return isinstance(e, ast.Name) and e.id == "self"
 
 
+def _section_handle(e):
+    """hdus[<const>].section -- astropy's lazy-read accessor of an HDU; a
+    local name for it denotes the same accessor as the spelled-out chain"""
+    return isinstance(e, ast.Attribute) and e.attr == "section" and \
+        isinstance(e.value, ast.Subscript) and \
+        isinstance(e.value.value, ast.Name) and \
+        isinstance(e.value.slice, (ast.Constant, ast.Name))
+
+
 def inline_pure_locals(fnode, max_size=90, stable_attr=None):
     """Replace every use of a local name that is assigned exactly once, by a
     pure expression over stable operands, with that expression (the
@@ -1357,7 +1466,8 @@ def inline_pure_locals(fnode, max_size=90, stable_attr=None):
             if nm in params or len(stores.get(nm, [])) != 1:
                 continue
             if not (_pure_expr(n.value) or
-                    _alias_chain(n.value, stable_attr)):
+                    _alias_chain(n.value, stable_attr) or
+                    _section_handle(n.value)):
                 continue
             try:
                 if len(ast.unparse(n.value)) > max_size:
